@@ -268,6 +268,49 @@ proof! {
     }
 }
 
+// the REAL link table (MultiExchangeTxMap; under the hook an inline association list): a request naming exchange index x is
+// handed to exactly the link stored at position x, and an exchange without a link (None entry) or an unknown index is a fatal
+// error - link-less exchanges must not shift the positions of the others
+proof! {
+    #[kani::unwind(10)]
+    fn c03_q_real_link_table() {
+        use barter::engine::execution_tx::MultiExchangeTxMap;
+        use barter_instrument::exchange::ExchangeId;
+        log_reset();
+        // exchange 0 has no link, exchanges 1 and 2 have; the links' fault patterns are symbolic
+        let (l1, l2) = (any_link(), any_link());
+        assume(l1 != Link::Missing && l2 != Link::Missing);
+        let txs: MultiExchangeTxMap<RecordingTx> = [
+            (ExchangeId::BinanceSpot, None),
+            (ExchangeId::Kraken, Some(RecordingTx { exchange: 1, link: l1 })),
+            (ExchangeId::Okx, Some(RecordingTx { exchange: 2, link: l2 })),
+        ].into_iter().collect();
+        let eng = Engine { clock: (), meta: EngineMeta { time_start: time_at(0), sequence: Sequence(0) }, state: Recorder::default(), execution_txs: txs,
+            strategy: Script { cancel_exchange: 0, open_exchange: 0 }, risk: Gate { approve_cancel: true, approve_open: true } };
+        let x = any_usize_lt(4);
+        let request = open(x, 2);
+        let result = eng.send_request(&request);
+        let link = match x { 1 => Some(l1), 2 => Some(l2), _ => None };
+        match link {
+            Some(Link::Healthy) => {
+                assert!(result.is_ok(), "C03: deliverable request failed");
+                assert!(delivered(x, 1, 2) == 1 && delivered_total() == 1, "C03: request not delivered exactly once to the link of the exchange it names");
+            }
+            Some(Link::Unhealthy) => {
+                assert!(matches!(result, Err(EngineError::Recoverable(_))) && delivered_total() == 0, "C03: unhealthy link");
+            }
+            _ => {
+                assert!(matches!(result, Err(EngineError::Unrecoverable(_))), "C03: a request for an exchange without a link (or a closed link) must fail fatally");
+                assert!(delivered_total() == 0, "C03: a request for an exchange without a link was delivered to another exchange's link");
+            }
+        }
+        kani::cover!(x == 0, "exchange without a link");
+        kani::cover!(x == 2 && l2 == Link::Healthy, "delivered to the last link");
+        kani::cover!(x == 3, "unknown exchange index");
+        core::mem::forget((result, request, eng));
+    }
+}
+
 // in-flight marks land on the instrument the request names, and only there (real EngineState as recorder; needs the hook)
 fn in_flight_routing(i: usize) {
         use crate::world::*;
